@@ -33,7 +33,7 @@ BUDGET = {"quick": (4, 400), "thorough": (16, 4000)}
 ASSUMPTIONS = ["From(...) is the first positional argument of a predicate-form term",
                "entities compare by identity (eq=False)"]
 
-FIELDS = {"Ent": ["k", "a", "b", "s", "tags", "o", "ref"], "EntV": ["k", "a", "b", "s", "tags", "o", "ref"], "EntSub": ["k", "a", "b", "s", "tags", "o", "ref"],
+FIELDS = {"Ent": ["k", "a", "b", "s", "tags", "o", "ref"], "EntSubSub": ["k", "a", "b", "s", "tags", "o", "ref"], "EntV": ["k", "a", "b", "s", "tags", "o", "ref"], "EntSub": ["k", "a", "b", "s", "tags", "o", "ref"],
           "EntPlain": ["k", "a", "b", "s", "tags", "o", "ref"], "Other": ["k", "a", "ref"]}
 
 
